@@ -192,6 +192,10 @@ func c05HTTPSanitize(fs []c05Fld, top bool) []c05Fld {
 			f.Str = false
 		}
 		f.Env, f.EV, f.Inh = false, nil, false
+		f.OD = "" // optional=dep is not implemented by mapping.Marshal (stated there)
+		if f.T.K == "slice" || f.T.K == "map" {
+			f.T.P = false // pointers to collections are rejected by the server side (type mismatch error)
+		}
 		if top && f.T.D && f.Rng != nil {
 			f.T.D = false // httpc checks range= of top-level fields with a type switch over the basic types only
 		}
